@@ -260,13 +260,32 @@ func c15Run(ci interface{}, r *core.Rec) {
 				return nil
 			}
 		}
-		for _, op := range []string{"verify", "verify-all", "repair"} {
+		for _, op := range []string{"verify", "verify-all", "repair", "staged-repair"} {
 			if op == "verify-all" && c.Fmt == "p2" {
 				continue
 			}
 			var err error
 			pi := core.Catch(func() {
 				switch {
+				case op == "staged-repair" && c.Fmt == "p2":
+					// the staged exported API behind Repair, used directly
+					var d *par2.Decoder
+					if d, err = par2.VerifNewDecoder(fs, par2.DoNothingDecoderDelegate{}, index, 1); err == nil {
+						if err = d.LoadFileData(); err == nil {
+							if err = d.LoadParityData(); err == nil {
+								_, err = d.Repair(false)
+							}
+						}
+					}
+				case op == "staged-repair":
+					var d *par1.Decoder
+					if d, err = par1.VerifNewDecoder(fs, par1.DoNothingDecoderDelegate{}, index); err == nil {
+						if err = d.LoadFileData(); err == nil {
+							if err = d.LoadParityData(); err == nil {
+								_, err = d.Repair(false)
+							}
+						}
+					}
 				case c.Fmt == "p2" && op == "verify":
 					_, err = par2.VerifVerify(fs, index, par2.VerifyOptions{NumGoroutines: 1})
 				case c.Fmt == "p2":
@@ -425,7 +444,7 @@ func init() {
 	core.Register(&core.Prop{
 		ID:    "C15",
 		Level: "model_checking",
-		Rule: "bounded-exhaustive declared names: every path built from components {a, .., ., empty, a.., ..a} of length 1-4 (thorough 1-5), each with/without a leading and a trailing slash, plus '..' look-alikes with a control character inside / before / after, backslash, NUL, drive-letter, UNC, long-traversal and non-ASCII (UTF-8, Latin-1, invalid UTF-8) spellings and absolute paths into a canary tree; in each position of a 2-file set; PAR1 and PAR2 archives written by the reference writers as fully repairable sets whose declared files are x {missing, present in the archive directory but damaged, present and intact (PAR1)}; the hostile entry also declared with length 0; short names also with the first file write of Repair failing (a fallback location must stay inside too); real Verify (PAR1: also with the full parity check) and Repair; PAR1 also with the hostile entry listed but not saved in the parity set. Real-directory runs execute from a third directory inside the canary tree, so anything resolved against the current directory is seen. All names run on the recording in-memory filesystem; names shorter than 9 characters (thorough: 12) additionally on a real directory with a canary tree (byte snapshot of everything around the archive directory before/after). PAR2 Create with inputs outside the index directory in 10 spellings. " +
+		Rule: "bounded-exhaustive declared names: every path built from components {a, .., ., empty, a.., ..a} of length 1-4 (thorough 1-5), each with/without a leading and a trailing slash, plus '..' look-alikes with a control character inside / before / after, backslash, NUL, drive-letter, UNC, long-traversal and non-ASCII (UTF-8, Latin-1, invalid UTF-8) spellings and absolute paths into a canary tree; in each position of a 2-file set; PAR1 and PAR2 archives written by the reference writers as fully repairable sets whose declared files are x {missing, present in the archive directory but damaged, present and intact (PAR1)}; the hostile entry also declared with length 0; short names also with the first file write of Repair failing (a fallback location must stay inside too); real Verify (PAR1: also with the full parity check) and Repair, plus the staged Decoder API behind Repair used directly (NewDecoder, LoadFileData, LoadParityData, Repair); PAR1 also with the hostile entry listed but not saved in the parity set. Real-directory runs execute from a third directory inside the canary tree, so anything resolved against the current directory is seen. All names run on the recording in-memory filesystem; names shorter than 9 characters (thorough: 12) additionally on a real directory with a canary tree (byte snapshot of everything around the archive directory before/after). PAR2 Create with inputs outside the index directory in 10 spellings. " +
 			"Oracle: every write path, cleaned, lies inside the index directory tree (PAR1: directly in it); nothing outside changes or appears; Create refuses. non-trivial = every case (each declares a hostile or boundary name)",
 		Assumptions: []string{"reads outside the directory are counted in evidence but are not an alarm (the statement constrains create/modify/delete)", "Linux path semantics: backslash is an ordinary character"},
 		NewCase:     func() interface{} { return &c15Case{} },
